@@ -63,6 +63,10 @@ def all_ops(n, level):
         ops.append(f"pp {s} 1 2,3 0")
         if full:
             ops.append(f"pp {s} 2 1 1")
+    if n and full:
+        ops += ["pp i0 3 None 0", f"pp d{n - 1} 0 0,2 1", "treepp i0 2 None 1 trigger", f"treepp o{n - 1} 0 1,2 0 player"]
+    for s in []:
+        pass
     for s in sels(n, False) + ([f"o{n - 1}", f"d{n - 1}"] if n and full else []):
         for g in ("none", "trigger", "player"):
             ops.append(f"treepp {s} 1 2,3 0 {g}")
@@ -128,11 +132,11 @@ def random_history(rng, nmax, length):
                 q = ""            # the oracle needs the selected root: display selectors only on a synchronised state
             if k == "tree":
                 return q + f"tree {s_}"
-            ps = rng.sample(range(1, 9), rng.randrange(1, 3))
-            return q + f"treepp {s_} {rng.randrange(1, 9)} {show_list(ps)} {rng.randrange(2)} {rng.choice(['none', 'trigger', 'player'])}"
+            ps = show_list(rng.sample(range(0, 9), rng.randrange(1, 3))) if rng.random() < 0.9 else "None"
+            return q + f"treepp {s_} {rng.randrange(0, 9)} {ps} {rng.randrange(2)} {rng.choice(['none', 'trigger', 'player'])}"
         if k == "pp":
-            ps = rng.sample(range(0, 9), rng.randrange(1, 4))
-            return q + f"pp {sel()} {rng.randrange(1, 9)} {show_list(ps)} {rng.randrange(2)}"
+            ps = show_list(rng.sample(range(0, 9), rng.randrange(1, 4))) if rng.random() < 0.9 else "None"
+            return q + f"pp {sel()} {rng.randrange(0, 9)} {ps} {rng.randrange(2)}"
         if k == "import":
             m = rng.randrange(1, 4)
             tids = rng.sample(range(5), m)
@@ -168,7 +172,7 @@ def run(ctx):
     R = common.Result(RULE)
     rng = ctx.rng
     rn = Runner(ctx, R, lib, "C06")
-    R.extra["model_variant"] = {"remove_fixed(F4)": rn.mode[0], "tree_fixed(F15)": rn.mode[1]}
+    R.extra["model_variant"] = {"remove_fixed(F4)": rn.mode[0], "tree_fixed(F15)": rn.mode[1], "import_extends(F5)": rn.mode[2]}
     real = Real(lib, lib.detached())
 
     # corpus / replay first
